@@ -2,9 +2,9 @@
 import json, threading
 from lib import vlib
 
-RULE = ("histories: every sequence of up to 2 (thorough 3) runs over 21 scripts covering every termination kind (return, uncaught "
+RULE = ("histories: every sequence of up to 2 (thorough 3) runs over 24 scripts covering every termination kind (return, uncaught "
         "error through nested finally blocks, recovered Go panic, value-stack overflow, frame overflow, abort inside a nested call, "
-        "statement-position recursion ending in a throw, module state change (source module, bytes / sync-map / array object modules, nested values of a builtin module), closures, error raised inside finally, error inside an "
+        "statement-position recursion ending in a throw of its own or of a callee one or two frames above it, module state change (source module, bytes / sync-map / array object modules, nested values of a builtin module), closures, error raised inside finally, error inside an "
         "Invoker callback, deep recursion) x {nothing, Clear, SetBytecode, Clear+SetBytecode} x 14 residue-sensitive probes (incl. runs with nil globals: what a run stored in the globals the VM provided is gone in the next run; incl. parameters that must be undefined after a run that had arguments); TLC checks "
         "NoResidueRead on the component model and exports each history; the harness replays it on one real VM and compares the "
         "re-run of the last script and the probe with a new VM, and the canonical dump of every Bytecode before and after; "
